@@ -43,11 +43,11 @@ func forallIn(lo, hi int, f func(int) bool) bool {
 //
 //@ func (*NDNLPLinkService).handleIncomingFrame
 //@   requires specFwReady() && l.transport != nil && l.partialMessageStore != nil
-//@   modifies l.nInInterests, l.nInData, l.partialMessageStore, all([][]byte)
+//@   modifies l.nInInterests, l.nInData, l.partialMessageStore[*], all([][]byte)
 
 //@ func (*NDNLPLinkService).reassemblePacket
 //@   requires l.partialMessageStore != nil && frame != nil
-//@   modifies l.partialMessageStore, all([][]byte)
+//@   modifies l.partialMessageStore[*], all([][]byte)
 //@   loop 1 invariant receivedCount >= 0 && receivedCount <= rangeindex+1
 //@   loop 2 invariant len(reassembled) == len(l.partialMessageStore[baseSequence])
 
